@@ -392,11 +392,115 @@ def r4_static_condensation(ctx):
               None if ok else {"stores": [(repr(i), repr(v)) for i, v, _ in cells]})
 
 
+def r5_cbcheck_quantities(ctx):
+    """cbcheck compares three rigid-body mode sets - stiffness based (rbs, full size), geometry based (rbg, boundary size) and eigensolution based
+    (rbe, full size).  Decided on values: each set is used with the matrix partition of its own size in the mass (rb^T M rb), grounding (K rb,
+    rb^T K rb) and effective-mass ((Mqb rbg)^2 as a percentage of diag(rbg^T Mbb rbg)) computations; every report / namespace slot named
+    stiffness / geometry / eigensolution receives the quantity built from that set (a copy-and-paste slip between the three siblings is the
+    realistic defect); rbe is normalised to the identity at the reference DOF."""
+    from .sem import Sem, and_binop
+    fn = ctx.src.func(CB, "cbcheck")
+
+    def cond(test, ev):
+        t = utext(test)
+        return {"usetisNone": False, "uset.shape[0]!=nb": False, "convisnotNone": False, "reorder": False, "(bset==bseto).all()": True,
+                "rb_normisNone": False, "rb_norm": False, "nq>0": True, "em_filt>0": False}.get(t)
+
+    def call(node, ev):
+        d = dotted(node.func) or ""
+        if d == "cgmass":
+            a = ev.ev(node.args[0])
+            if is_unknown(a) or isinstance(a, tuple):
+                return NotImplemented
+            return tuple(F.fn(f"cgmass{i}", need(a)) for i in range(6))
+        if d in ("linalg.solve", "la.solve") and len(node.args) >= 2:
+            a, b = ev.ev(node.args[0]), ev.ev(node.args[1])
+            if is_unknown(a) or is_unknown(b) or isinstance(a, tuple) or isinstance(b, tuple):
+                return NotImplemented
+            return need(b) / need(a)
+        if d == "np.sort" and node.args:
+            return ev.ev(node.args[0])
+        return NotImplemented
+
+    S = Sem(ctx, fn, cond=cond, call=call, erase_T=True, binop=and_binop, loop_once=True, env={"Mcb": F.sym("M"), "Kcb": F.sym("K")})
+    E = S.E
+    rbs, rbg, rbe = S.env("rbs"), S.env("rbg"), S.env("rbe")
+    if any(x is None or is_unknown(x) or isinstance(x, tuple) for x in (rbs, rbg, rbe)):
+        ctx.error("cbcheck: the three rigid-body mode sets", fn, [repr(rbs), repr(rbg), repr(rbe)])
+        return
+    rbs, rbg, rbe = need(rbs), need(rbg), need(rbe)
+    M, K = F.sym("M"), F.sym("K")
+    B = "np.ix_(bseto, bseto)"
+    Mbb, Kbb = need(E(f"Mcb[{B}]")), need(E(f"Kcb[{B}]"))
+    from .sem import split_call, unfn
+    cg = split_call(rbg)
+    ua = unfn(rbs)
+    cs = split_call(ua[1][0]) if ua and ua[0] == "attr:rbmodes" and ua[1] else None
+    ok = cg is not None and cg[0] == "n2p.rbgeom_uset" and len(cg[1]) == 2 and S.same(cg[1][0], E("uset")) and S.same(cg[1][1], E("uref")) \
+        and cs is not None and cs[0] == "cbcoordchk" and len(cs[1]) >= 3 and S.same(cs[1][0], K) and S.same(cs[1][1], E("bset")) and S.same(cs[1][2], E("bref"))
+    ctx.check(ok, "cbcheck: rbg comes from the geometry (uset, reference), rbs from the stiffness-based coordinate check of the same model", fn,
+              None if ok else [repr(rbg)[:200], repr(rbs)[:200]])
+    v6 = "ff_info.v[:, :6]"
+    ok = S.same(rbe, need(E(v6)) / need(E("ff_info.v[bref, :6]")))
+    ctx.check(ok, "cbcheck: rbe = V6 (V6[bref])^-1 - the six lowest free-free modes normalised to the identity at the reference DOF", fn, None if ok else repr(rbe)[:300])
+    want = {"ms": rbs * M * rbs, "mg": rbg * Mbb * rbg, "me": rbe * M * rbe, "rbfs": K * rbs, "rbfg": Kbb * rbg, "rbfe": K * rbe}
+    for nm, w in want.items():
+        got = S.env(nm)
+        ok = S.same(got, w)
+        ctx.check(ok, f"cbcheck: `{nm}` is built from the matrix partition of the size of its own rigid-body set "
+                      f"({'boundary partition for the geometry set, full matrix otherwise'})", fn, None if ok else {"got": repr(got)[:300], "want": repr(w)[:300]})
+    # sibling slots: every call that takes a label must receive the quantity of that label
+    lab = {"stiffness": ("ms", "rbfs", rbs), "geometry": ("mg", "rbfg", rbg), "eigensolution": ("me", "rbfe", rbe)}
+    n_lab = 0
+    for name in ("_wrtmass", "_wrtground", "_wrtinertia"):
+        for cname, pos, kws, node in S.calls(name):
+            label = next((a for a in pos if not is_unknown(a) and not isinstance(a, tuple) and repr(a).strip("'\"") in lab), None)
+            if label is None:
+                continue
+            key = repr(label).strip("'\"")
+            mm, ff, rb = lab[key]
+            n_lab += 1
+            if name == "_wrtmass":
+                ok = S.same(pos[1], want[mm])
+            elif name == "_wrtground":
+                ok = S.same(pos[2], want[ff]) and S.same(pos[3], rb * want[ff])
+            else:
+                ok = S.same(pos[1], F.fn("cgmass4", want[mm])) and S.same(pos[2], F.fn("cgmass5", want[mm]))
+            ctx.check(ok, f"cbcheck: the `{key}` slot of {name} receives the quantity built from the {key}-based rigid-body modes", node,
+                      None if ok else [repr(x)[:160] for x in pos[1:4]])
+    ctx.check(n_lab == 9, "cbcheck: nine labelled report slots (mass, grounding, inertia x three mode sets)", fn, n_lab, nontrivial=False)
+    for cname, pos, kws, node in S.calls("_wrtdist"):
+        # (f, x_s, x_g, x_e, title): the same cgmass output of the three sets, in the order s, g, e
+        idx = None
+        for i in range(6):
+            if S.same(pos[1], F.fn(f"cgmass{i}", want["ms"])):
+                idx = i
+        ok = idx is not None and S.same(pos[2], F.fn(f"cgmass{idx}", want["mg"])) and S.same(pos[3], F.fn(f"cgmass{idx}", want["me"]))
+        ctx.check(ok, "cbcheck: each distance / gyration comparison lists the same mass property of the stiffness, geometry and eigensolution sets in that order", node)
+    q = "locate.flippv(bseto, np.size(Mcb, 0))"
+    em = S.env("effmass")
+    if isinstance(em, tuple) or em is None:
+        em = S.init("effmass")
+    emw = need(E(f"Mcb[np.ix_({q}, bseto)]")) * rbg
+    # effmass / effmass_percent are rebound to DataFrames at the end: look at the values handed to pd.DataFrame
+    dfs = S.calls("pd.DataFrame")
+    vals = [c[1][0] for c in dfs if c[1]]
+    ok = any(S.same(v, emw * emw) for v in vals)
+    ctx.check(ok, "cbcheck: modal effective mass = (Mqb rbg)^2 with q the complement of the boundary set", fn, None if ok else [repr(v)[:200] for v in vals])
+    ok = any(S.same(v, emw * emw * 100 / F.fn("call:np.diag", want["mg"])) for v in vals)
+    ctx.check(ok, "cbcheck: effective mass percentage is taken of the total mass diag(rbg^T Mbb rbg) of the same (geometry) set", fn,
+              None if ok else [repr(v)[:200] for v in vals])
+    ns = S.calls("SimpleNamespace")
+    ok = len(ns) == 1 and all(S.same(ns[0][2].get(k), v) for k, v in (("rbs", rbs), ("rbg", rbg), ("rbe", rbe), ("m", M), ("k", K)))
+    ctx.check(ok, "cbcheck: the returned namespace publishes rbs, rbg, rbe, m, k under their own names", ns[0][3] if ns else fn)
+
+
 RULES = [
     ("C06-R1", r1_cbtf, 14),
     ("C06-R2", r2_conversion, 11),
     ("C06-R3", r3_reorder, 8),
     ("C06-R4", r4_static_condensation, 6),
+    ("C06-R5", r5_cbcheck_quantities, 20),
 ]
 LEVEL = "other"
 EXPLANATION = ("Static: cbtf uses the boundary/interior partitions consistently (index-space typing), returns the enforced boundary acceleration itself, loads the "
@@ -407,7 +511,9 @@ MANIFEST = {
     "text": "Thin partial claim decided statically: (R1) cbtf partition typing, enforced boundary acceleration, interior right-hand side, boundary force rows, rb=[]; "
             "(R2) m2e/e2m constants reciprocal to 2^-51, cbconvert C/D diagonals per block and their inverses, uset_convert scales exactly the length rows; "
             "(R3) cbreorder's symmetric permutation; (R4) cbcheck's free-free eigensolution helper _solve_eig: reduced stiffness = Kxx - Kxz Kzz^-1 Kzx, reduced mass = Mxx, "
-            "the eigenproblem solved for exactly those, expanded massless rows = -Kzz^-1 Kzx v, null rows/columns removed by one mask and re-inserted as zeros. Not decided: cbcheck's rigid-body, effective-mass and grounding numbers, cgmass, numerical accuracy of cbtf.",
+            "the eigenproblem solved for exactly those, expanded massless rows = -Kzz^-1 Kzx v, null rows/columns removed by one mask and re-inserted as zeros; "
+            "(R5) cbcheck builds the mass, grounding and effective-mass quantities of the stiffness / geometry / eigensolution rigid-body sets from the matrix "
+            "partition of each set's own size and puts each into the report / namespace slot of its own label, rbe normalised at the reference DOF. Not decided: cbcheck's rigid-body, effective-mass and grounding numbers, cgmass, numerical accuracy of cbtf.",
     "note": "Trusted: CPython ast; verifier/e2_formula.py, verifier/e3_spaces.py; the USET row layout documented in n2p.addgrid (row 1 location, row 2 ids, row 3 origin, rows 4-6 T).",
     "technique": "static index-space typing + symbolic factor checks + structural who-passes-what rules",
 }
